@@ -19,10 +19,20 @@ Print Assumptions C19_load_once_dependencies_first_packages_checked.
 Theorem C19_symbol_resolution_order : forall fs cfg parts from_dir t,
   resolve_sym fs cfg parts from_dir = Some t ->
   exists l1 b l2,
-    (match parts with "bloch"%string :: _ => search cfg ++ [from_dir; cwd cfg] | _ => from_dir :: search cfg ++ [cwd cfg] end) = l1 ++ b :: l2 /\
+    (match parts with "bloch"%string :: _ :: _ => search cfg ++ [from_dir; cwd cfg] | _ => from_dir :: search cfg ++ [cwd cfg] end) = l1 ++ b :: l2 /\
     t = b ++ rel_file parts /\ lookup fs t <> None /\ forall b', In b' l1 -> lookup fs (b' ++ rel_file parts) = None.
 Proof. intros fs cfg parts from_dir t H. rewrite <- bases_order. apply resolve_sym_first. exact H. Qed.
 Print Assumptions C19_symbol_resolution_order.
+
+(* a wildcard import takes the package directory of the first root, in the documented order, that holds a module,
+   and takes every module of that directory *)
+Theorem C19_wildcard_resolution_order : forall fs cfg pkg from_dir,
+  resolve_wild fs cfg pkg from_dir <> [] ->
+  exists l1 b l2,
+    (match pkg with "bloch"%string :: _ => search cfg ++ [from_dir; cwd cfg] | _ => from_dir :: search cfg ++ [cwd cfg] end) = l1 ++ b :: l2 /\
+    resolve_wild fs cfg pkg from_dir = dir_modules fs (b ++ pkg) /\ forall b', In b' l1 -> dir_modules fs (b' ++ pkg) = [].
+Proof. exact resolve_wild_first. Qed.
+Print Assumptions C19_wildcard_resolution_order.
 
 (* the traversal always terminates: every import graph, cyclic or not, yields an order or a diagnostic *)
 Theorem C19_loading_terminates : forall fs cfg entry, load fs cfg entry <> inr EFuel.
